@@ -600,6 +600,11 @@ func Select(a, i *Term) *Term {
 	if cur.Op == "constarr" {
 		return cur.Args[0]
 	}
+	if cur.Op == "var" && i.IsConst() {
+		if s, ok := litBytes[cur]; ok && i.Val.IsInt64() && i.Val.Int64() >= 0 && i.Val.Int64() < int64(len(s)) {
+			return BVI(int64(s[i.Val.Int64()]), 8)
+		}
+	}
 	return mk("select", "", cur.Sort.Elem, nil, cur, i)
 }
 
@@ -612,6 +617,9 @@ func Store(a, i, v *Term) *Term {
 	}
 	return mk("store", "", a.Sort, nil, a, i, v)
 }
+
+// litBytes: contents of long string literals represented by named arrays (see stringLit).
+var litBytes = map[*Term]string{}
 
 func ConstArr(s *Sort, v *Term) *Term { return mk("constarr", "", s, nil, v) }
 
